@@ -33,7 +33,7 @@ def build():
         // the challenge must be one the identifier type supports
         r matches Ok(id) ==> id.id_type == id_type
             && (id_type is Dns ==> crate::vident::idna_spec(value@) == Some(id.value@))
-            && (id_type is Ip ==> crate::vident::ip_canon(value@) == Some(id.value@)), //@C01.identifier_value_is_normalised
+            && (id_type is Ip ==> crate::vident::ip_canon(value@) == Some(id.value@)), //@C01.identifier_value_is_normalised,C06.identifier_value_is_normalised
         r matches Ok(id) ==> challenge_of(crate::vident::lower(challenge@)) == Some(id.challenge)
             && supported(id_type).contains(id.challenge), //@C05.configured_challenge_is_supported
 """, rewrites=[("T-ITER", r"(?P<v>id_type\.supported_challenges\(\)|\w+)\.contains\(&challenge\)", lambda m: f"crate::identifier::vec_contains(&{m.group('v')}, &challenge)"),
